@@ -18,10 +18,8 @@ from harness import framework as fw          # noqa: E402
 
 def classify(pid, mismatch, findings):
     """Return the known finding a spec-mismatch belongs to, or None."""
-    for f in findings:
-        if f['property'] != pid:
-            continue
-        cls = mismatch.get('classes', [])
+    cls = mismatch.get('classes', [])
+    for f in findings:          # a finding recorded under one property also explains the same input under another
         if f['classifier'] in cls:
             return f
     return None
